@@ -130,6 +130,10 @@ package server
 // an external listener leaves no route behind: the route removed is the one it registered (its Endpoint)
 //@   guard-call route: "EndpointRemove" typeis(t.Listeners[i].Config, *handlers.External) && arg(1) == unboxed(t.Listeners[i].Config, *handlers.External).Config.Endpoint
 //@   guard-call row:   "ListenerRemove" arg(1) == Name
+// C11: removing a listener takes at most its own "listener added" event out of the retained stream
+//@   ensures onecut: len(t.EventsList) >= old(len(t.EventsList)) - 1
+//@   loop "for EventID := range t.EventsList"
+//@     invariant kept: len(t.EventsList) >= old(len(t.EventsList))
 
 // C10: the listener configuration is stored as text; list-valued settings are joined with ", " and
 // split again at ", " when the teamserver restarts - faithful only if no element contains ", ".
